@@ -50,14 +50,15 @@ RULE = ("seeded random forests of 3-8 (thorough 12) objects of classes Node/AnyN
 
 
 def generate(tier, rng):
-    for _ in range(120 if tier == "quick" else 1500):
-        n = rng.randrange(3, 9 if tier == "quick" else 13)
+    sizes = [rng.randrange(3, 9 if tier == "quick" else 13) for _ in range(120 if tier == "quick" else 1500)]
+    sizes += [40, 70] if tier == "quick" else [40, 70, 70, 130, 130]       # scale: long chains of links, wide and deep trees
+    for n in sizes:
         light = rng.random() < 0.25
         kinds, targets = [], []
         for i in range(n):
             if light:
                 # LightNodeMixin classes: fully slotted, without __slots__ (attributes in __dict__), or both
-                kinds.append(rng.choice(["light", "light", "lightdict", "lightmixed"]))
+                kinds.append(rng.choice(["light", "light", "lightdict", "lightmixed", "lightpriv", "lightstr"]))
             else:
                 k = rng.choice(KINDS) if i > 0 else rng.choice(KINDS[:5])
                 kinds.append(k)
